@@ -292,6 +292,7 @@ def run(chk, prog):
                            bad[0][0] if bad else ci.loc(bb))
 
     thread_state_restored(chk, prog)
+    random_draws_read_saved_state_only(chk, prog)
 
     # ---- seeding provenance
     ALLOWED_SEED = ('field:StoryState::story_seed', 'field:StoryState::previous_random')
@@ -388,3 +389,82 @@ def thread_state_restored(chk, prog):
                    'a different result depending on what the thread compiled before' % '; '.join(bad), fn.loc(bb))
     chk.floor(R5, 'functions that raise a thread-local cell of the compiler', n, 1)
     chk.floor(R5, 'guard types restoring a thread-local cell', len(guards), 1)
+
+
+def _story_fields_touched(fn):
+    from analysis.facts import tyname
+    out = {}
+
+    def pl_fields(pl, bb):
+        for pe in (pl or {}).get('p', []):
+            if pe['k'] == 'field' and 'adt' in pe and tyname(pe['adt']) == 'Story':
+                out.setdefault(pe['n'], bb)
+    for bb, si, s in fn.stmts():
+        if s['k'] != 'assign':
+            continue
+        pl_fields(s['pl'], bb)
+        rv = s['rv']
+        pl_fields(rv.get('pl'), bb)
+        for k in ('op', 'a', 'b'):
+            o = rv.get(k)
+            if isinstance(o, dict):
+                pl_fields(o.get('pl'), bb)
+        for o in rv.get('ops', []):
+            pl_fields(o.get('pl'), bb)
+    for bb, t in fn.calls():
+        for a in t['args']:
+            pl_fields(a.get('pl'), bb)
+    return out
+
+
+def random_draws_read_saved_state_only(chk, prog):
+    """Seeds C03-6 / C17-6: a memo of shuffle orders kept on the Story, outside the state that load and reset replace."""
+    R = 'C03.random-draws-read-saved-state-only'
+    chk.rule(R, 'The initial seed is the one piece of ambient entropy; load_state, reset_state and SEED_RANDOM replace it, and '
+             'with it everything that was derived from it - provided that lives in StoryState. So the functions that draw '
+             'random numbers (they read StoryState::story_seed / previous_random) touch, of the Story object, only fields '
+             'with a settled class: the state itself, the immutable program, host registrations, and the fields that are '
+             'neutral at every host-call boundary (the table is shared with C17.every-field-classified). A field outside '
+             'that table touched where randomness is drawn - a memo of shuffle orders, a cached generator - survives a load '
+             'that changes the seed, and what is played afterwards depends on the entropy of the object\'s first seed.')
+    from analysis.facts import tyname
+    from rules.c17 import CLASS
+    drawers = []
+    for fn in sorted(prog.fns.values(), key=lambda f: f.p):
+        if fn.crate != 'bladeink' or '::tests::' in fn.p:
+            continue
+        reads_seed = False
+        for bb, si, s in fn.stmts():
+            if s['k'] != 'assign':
+                continue
+            pls = [s['rv'].get('pl')] + [o.get('pl') for o in ([s['rv'].get(k) for k in ('op', 'a', 'b')] + s['rv'].get('ops', []))
+                                         if isinstance(o, dict)]
+            for pl in pls:
+                for pe in (pl or {}).get('p', []):
+                    if pe['k'] == 'field' and 'adt' in pe and tyname(pe['adt']) == 'StoryState' \
+                            and pe['n'] in ('story_seed', 'previous_random'):
+                        reads_seed = True
+        if not reads_seed:
+            for bb, t in fn.calls():
+                for a in t['args']:
+                    for pe in (a.get('pl') or {}).get('p', []):
+                        if pe['k'] == 'field' and 'adt' in pe and tyname(pe['adt']) == 'StoryState' \
+                                and pe['n'] in ('story_seed', 'previous_random'):
+                            reads_seed = True
+        if reads_seed and (prog.root_fn(fn).self_adt or '').rsplit('::', 1)[-1] == 'Story':
+            drawers.append(fn)
+    chk.floor(R, 'Story functions that read the seed', len(drawers), 2)
+    roots = sorted({prog.root_fn(f).p: prog.root_fn(f) for f in drawers}.values(), key=lambda f: f.p)
+    for root in roots:
+        touched = {}
+        for g in prog.with_closures(root):
+            for n, bb in _story_fields_touched(g).items():
+                touched.setdefault(n, (g, bb))
+        unknown = sorted(n for n in touched if n not in CLASS)
+        g, bb = touched[unknown[0]] if unknown else (root, 0)
+        chk.decide(R, chk.key(R, root.short), not unknown,
+                   'touches only classified Story fields (%s)' % ', '.join(sorted(touched)),
+                   '%s draws random numbers from the seed and also uses Story::%s, a field outside the state that '
+                   'load_state / reset_state replace (and outside the table of settled fields): what it keeps there survives '
+                   'a change of the seed, so play after a load depends on the entropy of the earlier seed'
+                   % (root.short, ', Story::'.join(unknown)), g.loc(bb))
